@@ -53,6 +53,9 @@ CHECKS = {
  "C14": ("mutation-based negative testing: proptest-generated valid, terminating parent programs (marker written by the first executed instructions, a never-executed block of random instructions of every class); every applicable single semantic mutation of the property's list is applied, one mutant per site and in rotation at a live position, inside a procedure and at the end of the file; each mutant is assembled in-process with the driver's undefined-label / start checks replicated, and a seeded subset is run through the CLI (diagnostic present, no marker, no program output, status 0); the parent must be accepted and print its marker",
          "exploration; 4*10^2 (quick) / 1.2*10^4 (thorough) parents x ~120 mutants each in-process (17 error classes, population per class asserted), 2.4*10^3 / 6*10^4 mutants through the real driver",
          "trusted: the mutation operators produce programs that are invalid by the statement's own list (definitive width mismatches only; constants exactly one past a range; forward calls and negative constants for unsigned operands are not used)", "3/C14"),
+ "C15": ("robustness fuzzing with an explicit no-abort oracle: proptest-generated texts (valid programs from four generators and ~160 hand-picked fragments under 0-3 byte-level and token-level mutations, incl. multi-byte characters, NUL, CR-LF, truncation, stripped final newline, raw high bytes) are given to the driver's own preprocess() and to the data loader, interpreter and print reader (whole and line by line) under catch_unwind in an overflow-checked build; a seeded subset and all fragments go to the CLI as raw files; 14 size/depth families with n doubling run in a child with wait4 resource accounting (deterministic output / peak-memory proportionality bounds); thorough tier adds coverage-guided libFuzzer campaigns on the four parsers",
+         "exploration; 1.6*10^4 (quick) / 6*10^5 (thorough) texts x 4 parsers in-process, 1.3*10^3 / 2*10^4 CLI files, families to n=8000 / 64000; a panic, signal, exit status other than 0 (1 for unreadable files), silent exit or disproportionate output/memory is a violation; watchdog and CPU-growth only ever yield 'inconclusive'",
+         "trusted: catch_unwind + panic hook, the child runner; mutated programs given to the CLI have start renamed so that they cannot begin to run (a mutated program may legitimately loop)", "3/C15"),
 }
 
 REASON_WIP = "check not built yet in this revision of /verif (work in progress; see DESIGN.md section 7 for the order of work)"
